@@ -533,6 +533,14 @@ func (e *Exec) evalComposite(x *ast.CompositeLit, st *State, ctx *Ctx) string {
 // evalAlloc models &T{...}: a fresh non-nil reference distinct from every reference known on this path.
 func (e *Exec) evalAlloc(cl *ast.CompositeLit, st *State, ctx *Ctx) string {
 	t := e.typeOf(cl, ctx)
+	if n, ok := t.(*types.Named); ok && n.Obj().Pkg() != nil && n.Obj().Pkg().Path() == "bytes" && n.Obj().Name() == "Buffer" {
+		// &bytes.Buffer{}: a write-only byte sink whose content is tracked as a ghost string
+		h := e.fresh(st, "buffer", "Int")
+		st.assume("(> " + h + " 0)")
+		st.bufs[h] = `""`
+		e.note("bytes.Buffer is modelled by the string written to it so far; encoders bound to it append encS(codec, value, n) (uninterpreted; n = number of earlier Encode calls)")
+		return h
+	}
 	stt, ok := t.Underlying().(*types.Struct)
 	if !ok {
 		e.unsupported(cl.Pos(), "address of composite literal of type %s", t)
